@@ -29,7 +29,7 @@ Section WithPayloader.
 
   Theorem packetize_abs : forall p payload samples now, sane (pz_seq p) -> payload <> [] ->
     1 <= pz_abs p <= 255 ->
-    let frags := pay (u16 (pz_mtu p - abs_overhead (pz_abs p))) payload in
+    let frags := pay (pz_budget p) payload in
     frags <> [] -> roc (pz_seq p) + zlen frags < 18446744073709551616 ->
     exists init lastp,
       expected_train p (ext (pz_seq p)) frags = init ++ [lastp] /\
@@ -142,7 +142,7 @@ Section Histories.
   Definition consumed (p : pktz) (o : pop) : Z :=
     match o with
     | OPacketize [] _ _ => 0
-    | OPacketize pl _ _ => zlen (pay (u16 (pz_mtu p - abs_overhead (pz_abs p))) pl)
+    | OPacketize pl _ _ => zlen (pay (pz_budget p) pl)
     | OPadding n => Z.of_nat (Z.to_nat n)
     | _ => 0
     end.
@@ -167,7 +167,7 @@ Section Histories.
       + cbn [packetize]. split; [exact Hs|]. split; [lia|]. split; [change (zlen (@nil packet)) with 0; lia|].
         intros k pk H. destruct k; discriminate.
       + set (payload := b0 :: rest) in *.
-        set (frags := pay (u16 (pz_mtu p - abs_overhead (pz_abs p))) payload) in *.
+        set (frags := pay (pz_budget p) payload) in *.
         unfold packetize. fold payload. unfold payload at 1. fold frags.
         pose proof (build_packets_spec frags p (pz_seq p) Hs Hb) as Hbp.
         destruct (build_packets p (pz_seq p) frags) as [s' pkts]. destruct Hbp as (Hs' & He & Hp).
@@ -323,4 +323,37 @@ Proof.
   pose proof (train_hdrs p frags e) as Hh. rewrite Hsplit in Hh.
   apply Forall_app in Hh as [_ Hh]. apply Forall_cons_iff in Hh as [(Hx & _) _].
   apply with_abs_wf; assumption.
+Qed.
+
+(* ---- every MTU (D37): with a payloader that honours the room it is offered - fragments of 1 .. budget bytes,
+   hence none at all when there is no room - every packet of the train serialises to at most MTU bytes, whatever
+   the MTU is: also one that is smaller than the RTP header, where the room is 0 and does not wrap ---- *)
+Theorem train_within_every_mtu p e frags : pz_abs p = 0 ->
+  Forall (fun f => 1 <= zlen f <= pz_budget p) frags ->
+  Forall (fun pk => packet_marshal_size pk <= pz_mtu p) (expected_train p e frags).
+Proof.
+  intros Ha Hall. unfold pz_budget in Hall. rewrite Ha in Hall. change (abs_overhead 0) with 12 in Hall.
+  destruct (pz_mtu p <? 12) eqn:E.
+  - destruct frags as [|f t]; [constructor|]. apply Forall_cons_iff in Hall as [Hf _]. lia.
+  - pose proof (train_within_mtu p e frags (pz_mtu p - 12)) as H.
+    eapply Forall_impl; [|apply H].
+    + cbv beta. intros pk Hpk. lia.
+    + eapply Forall_impl; [|exact Hall]. cbv beta. intros f Hf. lia.
+Qed.
+
+Theorem train_abs_within_every_mtu p e frags b : 1 <= pz_abs p <= 255 -> zlen b = 3 ->
+  Forall (fun f => 1 <= zlen f <= pz_budget p) frags ->
+  frags = [] \/
+  exists init lastp, expected_train p e frags = init ++ [lastp] /\
+    Forall (fun pk => packet_marshal_size pk <= pz_mtu p) (init ++ [with_abs (pz_abs p) b lastp]).
+Proof.
+  intros Hid Hb Hall. destruct frags as [|f0 t0] eqn:Ef; [left; reflexivity|right]. rewrite <- Ef in *.
+  assert (Hne : expected_train p e frags <> []).
+  { intros Hnil. pose proof (expected_train_length p e frags) as Hl. rewrite Hnil, Ef in Hl. discriminate. }
+  destruct (exists_last Hne) as (init & lastp & Hsplit). exists init, lastp. split; [exact Hsplit|].
+  unfold pz_budget in Hall.
+  destruct (pz_mtu p <? abs_overhead (pz_abs p)) eqn:E.
+  - exfalso. rewrite Ef in Hall. apply Forall_cons_iff in Hall as [Hf _]. lia.
+  - apply (train_abs_within_mtu p e frags (pz_abs p) b (pz_mtu p) Hid Hb); [|exact Hsplit].
+    eapply Forall_impl; [|exact Hall]. cbv beta. intros f Hf. lia.
 Qed.
